@@ -44,6 +44,12 @@ theorem fmt_signature (le : Bool) : fmtOf .marshal_signature 0 le = .ok (fmtLE '
 theorem fmt_unix_fd (le : Bool) : fmtOf .marshal_unix_fd 0 le = .ok (fmtLE 'I' le) := by cases le <;> rfl
 theorem fmt_array (le : Bool) : fmtOf .marshal_array 0 le = .ok (fmtLE 'I' le) := by cases le <;> rfl
 
+theorem frame_string : frameOf .marshal_string = .ok 5 := rfl
+theorem frame_signature : frameOf .marshal_signature = .ok 2 := rfl
+theorem frame_array : frameOf .marshal_array = .ok 4 := rfl
+theorem uframe_string : frameOf .unmarshal_string = .ok 5 := rfl
+theorem uframe_signature : frameOf .unmarshal_signature = .ok 2 := rfl
+
 theorem size_byte : sizeOf .marshal_byte = .ok 1 := rfl
 theorem size_boolean : sizeOf .marshal_boolean = .ok 4 := rfl
 theorem size_int16 : sizeOf .marshal_int16 = .ok 2 := rfl
@@ -109,7 +115,7 @@ theorem mString_spec (le : Bool) (cls : StrCls) (cs : List Char) (fds : Fds) (bs
     rw [utf8Encode_no_nul] at h1
     simpa using h1
   unfold mString
-  simp only [hnul, fmt_string]
+  simp only [hnul, fmt_string, frame_string]
   rw [pack_uint 'I' le 4 (.int .plain ((utf8Encode cs).length : Int)) _ rfl rfl (by omega) (by omega)]
   simp
   omega
@@ -197,7 +203,7 @@ theorem marshalOne_basic (le : Bool) (fuel : Nat) (c : Basic) (v : Val) (pv : Py
     split at he <;> try (simp at he; done)
     rename_i h
     simp only [Option.some.injEq] at he; subst he
-    simp only [marshalOne, Basic.code, List.head?, disp_g, mSignature, ha, fmt_signature]
+    simp only [marshalOne, Basic.code, List.head?, disp_g, mSignature, ha, fmt_signature, frame_signature]
     rw [pack_uint 'B' le 1 (.int .plain ((List.length _ : Nat) : Int)) _ rfl rfl (by omega) (by omega)]
     simp
     omega
